@@ -82,13 +82,18 @@ def do_run(ids, props):
             r = sh(f"git -C /repo apply {d}/patch.diff")
             if r.returncode != 0: print(i, "patch does not apply to /repo", r.stderr[-200:]); continue
             ps = props or [m["breaks_property"]]
+            scale = os.environ.get("CBV_SCALE")
             for p in ps:
+                # a reduced-scale matrix run never overwrites a full-scale verdict
+                if scale and p in m["detected_by"] and "scale" not in m["detected_by"][p]:
+                    continue
                 t = time.time()
                 r = sh(f"VERIF_OUT=/var/tmp/cbv-seed-out ./check {p} quick", cwd=V)
                 killed = r.returncode == 1 and "VIOLATION property=" in r.stdout
                 res = "caught" if killed else ("inconclusive(exit %d)" % r.returncode if r.returncode not in (0, 1) else "missed")
                 sig = [l for l in r.stdout.splitlines() if l.startswith("C") and ":" in l and not l.startswith("C" + p[1:] + " quick")][:1]
                 m["detected_by"][p] = {"result": res, "first_finding": sig[0][:200] if sig else "", "wall_s": round(time.time() - t, 1)}
+                if scale: m["detected_by"][p]["scale"] = scale
                 print(f"{i:14s} {p}: {res:8s} {time.time()-t:5.1f}s {sig[0][:120] if sig else ''}", flush=True)
             save(i, m)
             sh("git -C /repo checkout -- .")
